@@ -389,6 +389,20 @@ func runC30(env *mc.Env) {
 	if !env.Thorough() {
 		fillers = fillers30[:2]
 	}
+	// VERIF_C30_ONLY=<prog>[,<prog>] restricts the alphabet (used for mutant trials, where a broken limit makes
+	// many cases run into the horizons); a restricted run is reported as not exhaustive.
+	if only := os.Getenv("VERIF_C30_ONLY"); only != "" {
+		var sel []divProg
+		for _, p := range progs {
+			for _, n := range strings.Split(only, ",") {
+				if p.Name == n {
+					sel = append(sel, p)
+				}
+			}
+		}
+		progs = sel
+		env.R.NotExhaustive("alphabet restricted by VERIF_C30_ONLY=" + only)
+	}
 	var cases []c30Case
 	for _, p := range progs {
 		for _, f := range fillers {
